@@ -134,8 +134,23 @@ def check_dyn(case):
 def check_case(case):
   if case.get('dyn'):
     return check_dyn(case)
+  res = check_static(case)
+  if case.get('rereg'):
+    # The same selector is re-registered (interactive mode, as in a re-run notebook cell) with a
+    # different signature / lists, the configuration is cleared, and binding attempts continue:
+    # acceptance must follow the *current* registration, whatever was accepted before.
+    with gin.config.interactive_mode():
+      built2 = G.build(case['rereg'], gin)
+    gin.clear_config()
+    res2 = check_static({'shape': case['rereg'], 'prior': case['prior'],
+                         'attempts': case['attempts2']}, built2)
+    return ok(set(res['labels']) | set(res2['labels']) | {'re-registered', 'nontrivial'}, True)
+  return res
+
+
+def check_static(case, prebuilt=None):
   shape = case['shape']
-  built = G.build(shape, gin)
+  built = prebuilt or G.build(shape, gin)
   sig = built.signature()
   named = G.named_params(shape)
   allow, deny = shape.get('allowlist'), shape.get('denylist')
@@ -294,6 +309,8 @@ def strategy():
 def _static_case(draw):
   shape = draw(G.shapes())
   shape['method_api'] = 'register'
+  if shape['kind'] == 'method':
+    shape['method_contains_class'] = draw(st.booleans())
   if shape['kind'] == 'function' and draw(st.integers(0, 2)) == 0:
     # the function is wrapped by 1-2 functools.wraps decorators before it is registered: its
     # configurable parameters are still those of the real signature
@@ -314,7 +331,26 @@ def _static_case(draw):
                                'unknown_mod']))
     attempts.append([draw(st.sampled_from(APIS)), sp, draw(st.sampled_from(SCOPES)),
                      draw(st.sampled_from(params)), 'A%d' % i])
-  return {'shape': shape, 'prior': prior, 'attempts': attempts}
+  case = {'shape': shape, 'prior': prior, 'attempts': attempts}
+  if shape['kind'] == 'function' and draw(st.integers(0, 3)) == 0:
+    # re-registration scenario: fixed selector c11m.pr, no finalize-hook paths (hooks would
+    # outlive the first registration)
+    shape.update(name='pr', gin_module='c11m')
+    shape2 = draw(G.shapes(kinds=('function',)))
+    shape2.update(name='pr', gin_module='c11m')
+    if draw(st.booleans()) and G.named_params(shape2):
+      shape2['denylist'] = draw(st.lists(st.sampled_from(G.named_params(shape2)), unique=True,
+                                         min_size=1, max_size=2))
+    params2 = G.named_params(shape) + G.named_params(shape2) + ['zz_unknown']
+    no_hooks = [a for a in APIS if not a.startswith('hook')]
+    case['attempts'] = [a for a in attempts if not a[0].startswith('hook')] or [
+        ['bind_str', 'full', '', params2[0], 'A0']]
+    case['rereg'] = shape2
+    case['attempts2'] = [[draw(st.sampled_from(no_hooks)),
+                          draw(st.sampled_from(['full', 'short', 'bare'])),
+                          draw(st.sampled_from(SCOPES)), draw(st.sampled_from(params2)), 'B%d' % i]
+                         for i in range(draw(st.integers(1, 4)))]
+  return case
 
 
 def sweep(tier):
@@ -331,6 +367,8 @@ def sweep(tier):
           shape = dict(base, kind=kind, api=api_reg, varkw=varkw)
           if kind == 'function' and api_reg == 'configurable':
             shape['decorated'] = 1
+          if kind == 'method' and api_reg == 'register':
+            shape['method_contains_class'] = True
           if lists:
             shape[lists[0]] = lists[1]
           for api in APIS:
